@@ -226,6 +226,9 @@ def analyse(o, v, tag=''):
                     v('C19:mermaid-gantt-milestone-flag-differs', dict(task=t.id, line=e)); break
                 if multi and 'gantt_section' in t.__dict__ and e['section'] != t.gantt_section:
                     v('C19:mermaid-gantt-task-under-wrong-section', dict(task=t.id, line=e, expected=t.gantt_section)); break
+                named = {x.gantt_section for x in tasks if 'gantt_section' in x.__dict__}
+                if multi and 'gantt_section' not in t.__dict__ and e['section'] in named:
+                    v('C19:mermaid-gantt-sectionless-task-under-a-named-section', dict(task=t.id, line=e)); break
         if mg._repr_html_() != WRAP.format(html=escape(html), height=mg.height):
             v('C19:mermaid-gantt-notebook-representation-is-not-the-escaped-document', None)
     # ---- Mermaid network
